@@ -97,6 +97,31 @@ theorem stdout_same_bytes (gen : Str → Str → Str → Except Err Str)
 example : cliReadSources (fun _ _ csrc => .ok csrc) [10] .stdout [109] [] [97, 10, 195, 169]
     = .ok [97, 10, 195, 169] := by rfl
 
+/-- **The output file does not depend on what was at the output path**: for
+every previous state of the path (absent, or a file with any content — longer,
+shorter, identical, unrelated) the file afterwards holds exactly the bytes of
+a run onto a fresh path, hence (under the hypotheses of
+`cli_bytes_eq_api_bytes`) the bytes of `emit_c_code`.  `open(output, 'w')`
+truncates; writing in place without truncating would not have this property
+(see the example below). -/
+theorem file_output_independent_of_previous_content (gen : Str → Str → Str → Except Err Str)
+    (exec : Str → Str → Except Err Str) (linesep name ffiVar : Str) (previous : Option Bytes)
+    (cdefFile csrcFile pyFile : Bytes) :
+    cliReadSourcesOnto gen linesep previous name cdefFile csrcFile
+      = cliReadSources gen linesep .file name cdefFile csrcFile ∧
+    cliExecPythonOnto exec linesep previous ffiVar pyFile
+      = cliExecPython exec linesep .file ffiVar pyFile := by
+  simp only [cliReadSourcesOnto, cliReadSources, cliExecPythonOnto, cliExecPython, deliver,
+    writeFileOnto, writeFile, storeAt, openForWriting, List.take_nil, List.drop_nil,
+    List.nil_append, List.append_nil]
+  trivial
+
+-- a longer stale file is replaced completely ...
+example : cliReadSourcesOnto (fun _ _ csrc => .ok csrc) [10] (some [1, 2, 3, 4, 5]) [109] [] [97, 98]
+    = .ok [97, 98] := by rfl
+-- ... whereas storing the new bytes over the old file without truncating keeps its tail
+example : storeAt [1, 2, 3, 4, 5] 0 [97, 98] = [97, 98, 3, 4, 5] := by decide
+
 /-- An input file that is not valid UTF-8 makes the command line fail with
 `UnicodeDecodeError` (no output). -/
 theorem invalid_utf8_is_an_error (gen : Str → Str → Str → Except Err Str) (linesep name : Str)
